@@ -173,6 +173,9 @@ def compare(model: A.Model, before_view: A.View, out_text: str):
         b, a = before_view.after_in_trivia(), v.after_in_trivia()
         if b != a:
             fails.append(("after-in-trivia-changed", {"before": [list(x) if x else x for x in b], "after": [list(x) if x else x for x in a], "out": out_text[:400]}))
+        b, a = before_view.let_head_comments(), v.let_head_comments()
+        if b != a:
+            fails.append(("let-head-comment-changed", {"before": b, "after": a, "out": out_text[:400]}))
     return fails, v
 
 
